@@ -30,6 +30,8 @@ impl super::MainState {
         channels: Vec<&'a str>,
         keys_opt: Option<Vec<&'a str>>,
     ) -> Result<(), Box<dyn Error>> {
+        #[cfg(simple_irc_server_verif)]
+        verif::race_point(6).await;
         let mut statem = self.state.write().await;
         let state = statem.deref_mut();
         let user_nick = conn_state.user_state.nick.as_ref().unwrap().clone();
@@ -747,6 +749,8 @@ impl super::MainState {
         kick_users: Vec<&'a str>,
         comment: Option<&'a str>,
     ) -> Result<(), Box<dyn Error>> {
+        #[cfg(simple_irc_server_verif)]
+        verif::race_point(7).await;
         let mut statem = self.state.write().await;
         let state = statem.deref_mut();
         let user_nick = conn_state.user_state.nick.as_ref().unwrap();
